@@ -74,6 +74,7 @@ def decode_cfg(data):
     first = {"container": dec.pick([None, None, None, "div", "td", "svg", "select", "p"]), "scripting": bool(dec.below(2)), "walker": dec.pick(["etree", "etree", "dom"])}
     second = {"container": dec.pick(REPARSE_CONTEXTS), "scripting": bool(dec.below(2))}
     # output encoding (None = str) and the meta-charset filter that is on by default with it; popped before the options reach HTMLSerializer
+    second["reuse"] = dec.below(4) == 0
     opts["_encoding"] = dec.pick([None, None, "utf-8", "ascii", "koi8-r"])
     opts["_inject"] = bool(dec.below(3))
     return opts, first, second
@@ -163,7 +164,13 @@ def check_case(case):
         except Exception as e:
             return Verdict("fail", "serializer(sanitize=True) raised %s: %s on %s" % (type(e).__name__, short(str(e), 100), short(text, 200)), "exception:" + type(e).__name__, nontrivial=True)
     try:
-        r2, p2 = h5.parse(out, builder="etree", container=second["container"], scripting=second["scripting"], full_tree=True)
+        if second.get("reuse") and first["walker"] == "etree":
+            # a pipeline that keeps one HTMLParser object for the untrusted parse and for reading the sanitized markup back
+            p2 = p
+            r2 = (p2.parse(out, scripting=second["scripting"]) if second["container"] is None
+                  else p2.parseFragment(out, container=second["container"], scripting=second["scripting"]))
+        else:
+            r2, p2 = h5.parse(out, builder="etree", container=second["container"], scripting=second["scripting"], full_tree=True)
     except Exception as e:
         return Verdict("excluded", finding="re-parse raised %s (C03's subject)" % type(e).__name__)
     fl = obs.flat(r2)
@@ -200,7 +207,7 @@ def shards(tier):
 
 def run_shard(desc, seed, tier):
     acc = Acc()
-    strat = st.tuples(sized_binary(6, 100), st.binary(min_size=18, max_size=18))
+    strat = st.tuples(sized_binary(6, 100), st.binary(min_size=19, max_size=19))
 
     def fn(x):
         data, cfg = x
